@@ -26,6 +26,8 @@ pub mod c10check;
 pub mod c04check;
 pub mod c03check;
 pub mod c07check;
+pub mod c08check;
+pub mod c08shared;
 pub mod c09check;
 
 use common::{Failure, ReplayFile, Tier, case_from};
@@ -39,6 +41,7 @@ pub fn dispatch(prop: &str, tier: Tier, seed: u64) -> i32 {
         "C05" => memchecks::check_c05(tier, seed),
         "C06" => fetchcheck::check_c06(tier, seed),
         "C07" => c07check::check_c07(tier, seed),
+        "C08" => c08check::check_c08(tier, seed),
         "C09" => c09check::check_c09(tier, seed),
         "C10" => c10check::check_c10(tier, seed),
         "C11" => fetchcheck::check_c11(tier, seed),
@@ -72,6 +75,18 @@ pub fn replay(rf: &ReplayFile) -> anyhow::Result<Option<Failure>> {
         ("C10", _) => c10check::exec_c10(&case_from(rf)?).failure,
         ("C04", _) => c04check::exec_c04(&case_from(rf)?).failure,
         ("C03", _) => c03check::exec_c03(&case_from(rf)?).failure,
+        ("C08", "serde") => {
+            let path = "/verif/out/replays/.serde_replay.json";
+            std::fs::create_dir_all("/verif/out/replays")?;
+            std::fs::write(path, serde_json::to_string(rf)?)?;
+            let out = std::process::Command::new("/verif/target/release/check-serde").arg("replay").arg(path).output()?;
+            let text = String::from_utf8_lossy(&out.stdout).to_string();
+            text.lines().find(|l| l.starts_with("REPRODUCED")).map(|l| common::Failure::new(rf.signature.clone(), l.to_string()))
+        }
+        ("C08", "code") => c08check::exec_scalar(&case_from(rf)?).failure,
+        ("C08", "ser") => c08check::exec_ser(&case_from(rf)?).failure,
+        ("C08", "mut") => c08check::exec_mut(&case_from(rf)?).failure,
+        ("C08", "tier") => c08check::exec_tier(&case_from(rf)?).failure,
         ("C07", "splitter") => c07check::exec_split(&case_from(rf)?).failure,
         ("C07", _) => c07check::exec_e2e(&case_from(rf)?).failure,
         ("C09", _) => c09check::exec_c09(&case_from(rf)?).failure,
